@@ -8,6 +8,15 @@
 use crate::*;
 use crate::textselection::*;
 
+/// keys of the recorded known findings of one finder (read from known_findings.txt, never written): lines of the form
+/// `known: property=Cxx clause="<finder>: <key>" :: text`
+fn known_keys(finder: &str) -> Vec<String> {
+    let dir = std::env::var("STAM_VERIF_RUNTIME_DIR").unwrap_or_else(|_| env!("STAM_VERIF_DIR").to_string());
+    let text = std::fs::read_to_string(format!("{}/known_findings.txt", dir)).unwrap_or_default();
+    let prefix = format!("clause=\"{}: ", finder);
+    text.lines().filter(|l| l.starts_with("known:")).filter_map(|l| l.find(prefix.as_str()).map(|i| { let rest = &l[i + prefix.len()..]; rest[..rest.find('"').unwrap_or(rest.len())].to_string() })).collect()
+}
+
 fn ts(b: usize, e: usize) -> TextSelection {
     TextSelection { intid: None, begin: b, end: e }
 }
@@ -643,4 +652,65 @@ fn find_text_ops() {
         }}
     }
     println!("NO-WITNESS find_text_ops");
+}
+
+/// bounded stand-in for the query engine part of C08 (QueryIter: boxed iterator plumbing outside the verifier's reach): over the
+/// 12-annotation store, for 9 constraints: a query with two constraints returns the intersection of the two single-constraint
+/// results whichever is written first; a disjunction returns the union without duplicates; LIMIT n returns the first n
+#[test]
+fn find_query_semantics() {
+    let store = consistency_base(Config::default());
+    let known = known_keys("find_query_semantics");
+    let constraints = [
+        "DATA \"d0\" \"k0\" = \"x\"", "DATA \"d0\" \"k0\"", "DATA \"d1\" \"k0\" = \"x\"", "DATA \"d0\" \"k1\"", "RESOURCE \"r0\"", "RESOURCE \"r1\"",
+        "TEXT \"hello\"", "DATASET \"d0\"", "DATA \"d0\" \"k2\" = \"n\"",
+    ];
+    let run = |q: &str| -> Result<Vec<String>, String> {
+        let query: Query = q.try_into().map_err(|e: StamError| format!("parse: {}", e))?;
+        let iter = store.query(query).map_err(|e| format!("query: {}", e))?;
+        let mut out = vec![];
+        for results in iter { for r in results.iter() { if let QueryResultItem::Annotation(a) = r { out.push(a.id().unwrap_or("?").to_string()); } } }
+        Ok(out)
+    };
+    let mut single: Vec<Option<Vec<String>>> = vec![];
+    for c in constraints {
+        let r = std::panic::catch_unwind(std::panic::AssertUnwindSafe(|| run(&format!("SELECT ANNOTATION ?a WHERE {};", c))));
+        match r {
+            Err(_) => { println!("WITNESS {{\"clause\":\"query\",\"query\":{:?},\"problem\":\"panic\"}}", c); return; }
+            Ok(Err(_)) => single.push(None),
+            Ok(Ok(v)) => { let mut s = v.clone(); s.sort(); s.dedup(); if s.len() != v.len() { println!("WITNESS {{\"clause\":\"query returns an item twice\",\"query\":{:?},\"got\":\"{:?}\"}}", c, v); return; } single.push(Some(s)); }
+        }
+    }
+    for i in 0..constraints.len() { for j in 0..constraints.len() {
+        if i == j { continue; }
+        let (a, b) = match (&single[i], &single[j]) { (Some(a), Some(b)) => (a, b), _ => continue };
+        let q = format!("SELECT ANNOTATION ?a WHERE {}; {};", constraints[i], constraints[j]);
+        let want: Vec<String> = a.iter().filter(|x| b.contains(x)).cloned().collect();
+        match std::panic::catch_unwind(std::panic::AssertUnwindSafe(|| run(&q))) {
+            Err(_) => { println!("WITNESS {{\"clause\":\"query\",\"query\":{:?},\"problem\":\"panic\"}}", q); return; }
+            Ok(Err(e)) => { println!("WITNESS {{\"clause\":\"query\",\"query\":{:?},\"problem\":{:?}}}", q, e); return; }
+            Ok(Ok(mut got)) => { let n = got.len(); got.sort(); got.dedup(); if got != want || n != got.len() {
+                let key = q.replace('"', "'");
+                if known.contains(&key) { println!("KNOWN {}", key); } else { println!("WITNESS {{\"clause\":\"conjunction = intersection, in either order\",\"query\":{:?},\"got\":\"{:?}\",\"want\":\"{:?}\"}}", q, got, want); return; }
+            } }
+        }
+        if i < j {
+            let q = format!("SELECT ANNOTATION ?a WHERE [ {} OR {} ];", constraints[i], constraints[j]);
+            let mut want: Vec<String> = a.iter().chain(b.iter()).cloned().collect(); want.sort(); want.dedup();
+            match std::panic::catch_unwind(std::panic::AssertUnwindSafe(|| run(&q))) {
+                Err(_) => { println!("WITNESS {{\"clause\":\"query\",\"query\":{:?},\"problem\":\"panic\"}}", q); return; }
+                Ok(Err(_)) => {}
+                Ok(Ok(mut got)) => { let n = got.len(); got.sort(); got.dedup(); if got != want || n != got.len() { println!("WITNESS {{\"clause\":\"disjunction = union without duplicates\",\"query\":{:?},\"got\":\"{:?}\",\"want\":\"{:?}\",\"returned\":{}}}", q, got, want, n); return; } }
+            }
+        }
+    }}
+    for (i, c) in constraints.iter().enumerate() {
+        let full = match run(&format!("SELECT ANNOTATION ?a WHERE {};", c)) { Ok(v) => v, Err(_) => continue };
+        let _ = i;
+        for n in 1..=3usize {
+            let q = format!("SELECT ANNOTATION ?a WHERE {}; LIMIT {};", c, n);
+            if let Ok(got) = run(&q) { let want: Vec<String> = full.iter().take(n).cloned().collect(); if got != want { println!("WITNESS {{\"clause\":\"LIMIT = prefix of the unlimited results\",\"query\":{:?},\"got\":\"{:?}\",\"want\":\"{:?}\"}}", q, got, want); return; } }
+        }
+    }
+    println!("NO-WITNESS find_query_semantics");
 }
